@@ -12,9 +12,13 @@ import (
 	"fmt"
 	"reflect"
 	"strings"
+	"time"
 	"unsafe"
 
 	"github.com/philpearl/avro"
+	avronull "github.com/philpearl/avro/null"
+	avrotime "github.com/philpearl/avro/time"
+	"github.com/unravelin/null/v5"
 )
 
 func init() { drivers["C20"] = driveC20 }
@@ -419,5 +423,92 @@ func driveC20(c *driverCtx) error {
 		}
 		useAll(c, rs, fmt.Sprintf("4-random-%d", k))
 	}
+	// step 5: the library's own registration functions are registrations like any other: after someone else has
+	// registered time.Time / null.Int, calling RegisterCodecs again makes the library's codecs the most recent ones
+	type HLib struct {
+		T time.Time  `json:"t"`
+		P *time.Time `json:"p"`
+		N null.Int   `json:"n"`
+	}
+	t1 := time.Date(2022, 5, 6, 7, 8, 9, 123000, time.FixedZone("", 2*3600))
+	useLib := func(step string, expectCustom bool) {
+		v := HLib{T: t1, P: &t1, N: null.IntFrom(5)}
+		ev := map[string]any{"op": "reg_lib", "step": step, "expectCustom": expectCustom, "outcome": "ok", "detail": "", "schema": snode("null", "", "", 0, nil, nil),
+			"value": projectValue(reflect.ValueOf(v)), "rvalue": projectValue(reflect.ValueOf(HLib{})), "customWrites": 0, "customReads": 0, "left": 0}
+		func() {
+			defer func() {
+				if r := recover(); r != nil {
+					ev["outcome"], ev["detail"] = "panic", fmt.Sprint(r)
+				}
+			}()
+			s, err := avro.SchemaForType(v)
+			if err != nil {
+				ev["outcome"], ev["detail"] = "err", "schema: "+err.Error()
+				return
+			}
+			ev["schema"] = projectLibSchema(s)
+			codec, err := s.Codec(v)
+			if err != nil {
+				ev["outcome"], ev["detail"] = "err", "codec: "+err.Error()
+				return
+			}
+			codecLog = nil
+			w := avro.NewWriteBuf(nil)
+			codec.Write(w, unsafe.Pointer(&v))
+			var out HLib
+			r := avro.NewReadBuf(w.Bytes())
+			if err := codec.Read(r, unsafe.Pointer(&out)); err != nil {
+				ev["outcome"], ev["detail"] = "err", "read: "+err.Error()
+			}
+			ev["rvalue"], ev["left"] = projectValue(reflect.ValueOf(out)), r.Len()
+			r.ExtractResourceBank().Close()
+			for _, e := range codecLog {
+				switch e.Op {
+				case "write":
+					ev["customWrites"] = ev["customWrites"].(int) + 1
+				case "read":
+					ev["customReads"] = ev["customReads"].(int) + 1
+				}
+			}
+		}()
+		c.rec.NewCase()
+		c.rec.Emit("C20|"+step+"|HLib", ev)
+	}
+	avrotime.RegisterCodecs()
+	avronull.RegisterCodecs()
+	useLib("5a-library-codecs", false)
+	// a foreign registration for the library's types: nanoseconds as a long, through a logging codec
+	avro.Register(reflect.TypeOf(time.Time{}), func(schema avro.Schema, typ reflect.Type, omit bool) (avro.Codec, error) {
+		return foreignTimeCodec{}, nil
+	})
+	avro.RegisterSchema(reflect.TypeOf(time.Time{}), avro.Schema{Type: "long"})
+	useLib("5b-foreign-time-codec", true)
+	avrotime.RegisterCodecs()
+	avronull.RegisterCodecs()
+	useLib("5c-library-codecs-again", false)
 	return nil
 }
+
+// foreignTimeCodec: somebody else's codec for time.Time (nanoseconds since the epoch as a long, UTC on the way back)
+type foreignTimeCodec struct{ avro.Int64Codec }
+
+func (foreignTimeCodec) Read(r *avro.ReadBuf, p unsafe.Pointer) error {
+	codecLog = append(codecLog, logEntry{0, "foreign-time", "read"})
+	var ns int64
+	if err := (avro.Int64Codec{}).Read(r, unsafe.Pointer(&ns)); err != nil {
+		return err
+	}
+	*(*time.Time)(p) = time.Unix(0, ns).UTC()
+	return nil
+}
+
+func (foreignTimeCodec) Write(w *avro.WriteBuf, p unsafe.Pointer) {
+	codecLog = append(codecLog, logEntry{0, "foreign-time", "write"})
+	ns := (*time.Time)(p).UnixNano()
+	avro.Int64Codec{}.Write(w, unsafe.Pointer(&ns))
+}
+
+func (foreignTimeCodec) New(r *avro.ReadBuf) unsafe.Pointer {
+	return r.Alloc(reflect.TypeOf(time.Time{}))
+}
+func (foreignTimeCodec) Omit(p unsafe.Pointer) bool { return false }
